@@ -25,7 +25,13 @@ func (fc *FCtx) execBlock(stmts []ast.Stmt, st *State) *Flow {
 		for k, a := range cs {
 			env := fc.newEnv(cur, fc.entry, pos)
 			env.specials = fc.curSpecials
-			t := fc.specBool(a.Expr, env)
+			t, ok := fc.clauseBool(a, env)
+			if !ok {
+				// an assert is an obligation of its own: one that can no longer even be stated over the changed body
+				// is not established
+				fc.obligeNamed(cur, fmt.Sprintf("assert#%s.%d", label, k), "assert", "false", "assert "+label+" (names a variable that no longer exists): "+a.Src, pos)
+				continue
+			}
 			fc.obligeNamed(cur, fmt.Sprintf("assert#%s.%d", label, k), "assert", t, "assert "+label+": "+a.Src, pos)
 			cur.assume(t)
 		}
@@ -42,6 +48,12 @@ func (fc *FCtx) execBlock(stmts []ast.Stmt, st *State) *Flow {
 			// name-anchored asserts attach to the first statement (in execution order, at any nesting depth
 			// of the function's own body) that defines or assigns the name
 			defs = definedNames(s)
+			// anchors follow renamed locals: a definition of the new name counts as one of the name the contract uses
+			for i, d := range defs {
+				if o, ok := fc.renamesRev[d]; ok {
+					defs[i] = o
+				}
+			}
 			for _, d := range defs {
 				for _, key := range anchorKeys("before", d, fc.seenDef[d]+1) {
 					if cs := fc.C.NamedAsserts[key]; len(cs) > 0 {
@@ -368,7 +380,7 @@ func (fc *FCtx) execAssign(s *ast.AssignStmt, st *State) {
 		if op == token.SHL || op == token.SHR {
 			nv = fc.shift(op, l, r, t, s.Rhs[0], st, s.Pos())
 		} else if op == token.ADD && l.S.Kind == KStr {
-			oos("string concatenation")
+			nv = fc.strCat(l, r, t, st)
 		} else {
 			nv = fc.arith(op, l, r, t, st, s.Pos())
 		}
@@ -522,6 +534,41 @@ func (fc *FCtx) execReturn(s *ast.ReturnStmt, st *State) {
 	}
 	if fc.isDead(st) {
 		return
+	}
+	// "assert at return": at every return statement of the function's own body, over the locals in scope there
+	if len(fc.frames) == 1 && fc.C != nil {
+		// "assert at lastreturn": the same, only at the last return statement of the body in source order (the normal
+		// completion of functions whose earlier returns are error exits made before all locals exist)
+		isLast := true
+		for _, o := range fc.retOrd {
+			if o > fc.retOrd[s.Pos()] {
+				isLast = false
+			}
+		}
+		for _, akey := range []string{"at:return", "at:lastreturn"} {
+			cs := fc.C.NamedAsserts[akey]
+			if len(cs) == 0 || (akey == "at:lastreturn" && !isLast) {
+				continue
+			}
+			if fc.anchored == nil {
+				fc.anchored = map[string]bool{}
+			}
+			fc.anchored[akey] = true
+			for k, a := range cs {
+				if akey == "at:lastreturn" {
+					k += 100
+				}
+				env := fc.newEnv(st, fc.entry, s.Pos())
+				env.specials = fc.curSpecials
+				t, ok := fc.clauseBool(a, env)
+				if !ok {
+					fc.obligeNamed(st, fmt.Sprintf("assert#at-return%d.%d", fc.retOrd[s.Pos()], k), "assert", "false", "assert at return (names a variable that no longer exists): "+a.Src, s.Pos())
+					continue
+				}
+				fc.obligeNamed(st, fmt.Sprintf("assert#at-return%d.%d", fc.retOrd[s.Pos()], k), "assert", t, "assert at return: "+a.Src, s.Pos())
+				st.assume(t)
+			}
+		}
 	}
 	for i := len(fr.deferred) - 1; i >= 0; i-- {
 		fr.deferred[i](st)
@@ -791,7 +838,10 @@ func (fc *FCtx) checkInvs(kind string, ord int, ls *LoopSpec, st *State, sp loop
 	for i, inv := range ls.Invariants {
 		env := fc.newEnv(st, fc.entry, pos)
 		env.specials = sp
-		t := fc.specBool(inv.Expr, env)
+		t, ok := fc.clauseBool(inv, env)
+		if !ok {
+			continue
+		}
 		name := fmt.Sprintf("%s#loop%d.%d", kind, ord, i)
 		fc.obligeNamed(st, name, kind, t, "loop "+fmt.Sprint(ord)+": invariant "+inv.Src, pos)
 	}
@@ -804,8 +854,30 @@ func (fc *FCtx) assumeInvs(ord int, ls *LoopSpec, st *State, sp loopSpecials, po
 	for _, inv := range ls.Invariants {
 		env := fc.newEnv(st, fc.entry, pos)
 		env.specials = sp
-		st.assume(fc.specBool(inv.Expr, env))
+		if t, ok := fc.clauseBool(inv, env); ok {
+			st.assume(t)
+		}
 	}
+}
+
+// clauseBool evaluates a proof-internal clause (loop invariant, assert). In a function whose body differs from the
+// ledgered one, a clause that names a local variable which no longer exists (and is not a renamed one, see renames) is
+// void: it is dropped with a note, and whatever it was needed for then fails on its own obligation.
+func (fc *FCtx) clauseBool(c *Clause, env *Env) (t string, ok bool) {
+	if !fc.changed {
+		return fc.specBool(c.Expr, env), true
+	}
+	defer func() {
+		if r := recover(); r != nil {
+			if o, isO := r.(OutOfSubset); isO && strings.HasPrefix(o.What, "spec: unknown name") {
+				fc.note("proof clause dropped, the function changed and it " + strings.TrimPrefix(o.What, "spec: ") + " no longer resolves: " + c.Src)
+				t, ok = "true", false
+				return
+			}
+			panic(r)
+		}
+	}()
+	return fc.specBool(c.Expr, env), true
 }
 
 func (fc *FCtx) nextLoopOrd(pos token.Pos) int {
